@@ -95,6 +95,15 @@ func (s *referencedIdentifierCollector) Enter(node cypher.SyntaxNode) {
 			s.addMatchPatternDeclaration(typedNode.Variable)
 		}
 
+	case *cypher.RemoveItem:
+		// The walk does not descend into the kind matcher of `REMOVE n:Kind`; the node it names is read by
+		// the update all the same.
+		if typedNode.KindMatcher != nil {
+			if variable, isVariable := typedNode.KindMatcher.Reference.(*cypher.Variable); isVariable {
+				s.addVariable(variable)
+			}
+		}
+
 	case *cypher.Variable:
 		s.addVariable(typedNode)
 	}
